@@ -225,6 +225,34 @@ def run_bounded(chk):
                 if probs:
                     fails.append((f"Polyhedron.merge_faces:{name}/{pname}", {"points": P, "triangles": tri, "problems": probs}))
                     break
+    # exact dyadic placements far from the origin and tiny scales (coordinates stay exactly representable, so the expected
+    # structure is unchanged): sort_faces / merge_faces identify vertices by their coordinates
+    for name in ("cube", "box", "pyramid", "frustum", "prism6_dyadic"):
+        pts = named.get(name) or [[x, y, z] for z in (0.0, 1.0) for x, y in ((2, 0), (1, 1.75), (-1, 1.75), (-2, 0), (-1, -1.75), (1, -1.75))]
+        exact = oracle.hull_facets(pts)
+        for tag, s, t in (("far_2^18", 1.0, (2.0**18, -2.0**19, 2.0**17)), ("tiny_2^-30", 2.0**-30, (0.0, 0.0, 0.0)),
+                          ("tiny_far", 2.0**-10, (2.0**8, 2.0**9, -2.0**8))):
+            P = [[s * float(p[i]) + t[i] for i in range(3)] for p in pts]
+            scr = []
+            for f in exact:
+                g = list(f)
+                k = rnd.randrange(len(g))
+                g = g[k:] + g[:k]
+                if rnd.random() < 0.5:
+                    g.reverse()
+                scr.append(g)
+            tri = [[f[0], f[k], f[k + 1]] for f in exact for k in range(1, len(f) - 1)]
+            for what, build in (("sort_faces", lambda: cox.shapes.Polyhedron(P, [list(g) for g in scr], faces_are_convex=True)),
+                                ("merge_faces", lambda: cox.shapes.Polyhedron(P, tri))):
+                n_eval += 1
+                try:
+                    ph = build()
+                    getattr(ph, what)()
+                    probs = structure_problems(ph, [list(f) for f in exact])
+                except Exception as e:  # noqa: BLE001
+                    probs = [f"{type(e).__name__}: {e}"[:200]]
+                if probs:
+                    fails.append((f"Polyhedron.{what}:{name}/{tag}", {"points": P, "problems": probs}))
     seen = set()
     for name, info in fails:
         key = name.split(":")[0] + str(info["problems"][:1])
